@@ -362,3 +362,101 @@ def gen_defs(repo, res):
             if got is None or not (got == want):
                 res.fail(key, f"`{label}` at point {q}: defined value is {_show(got) if got is not None else 'undefined'}, expected {_show(want)}", dm.line(fn.node))
                 break
+
+
+# ---- GEN-EXPR: the expression block generator interpreted on sample IR ------------------------------------------
+
+EG = "ffcx.codegeneration.expression_generator"
+
+
+@rule(
+    "GEN-EXPR",
+    ["C04", "C08"],
+    "ExpressionGenerator.generate_block_parts (with get_arg_factors and symbols.element_table) is interpreted from source "
+    "on sample block data; inside the point loop the emitted statements must write, within prod([points, components] + "
+    "argument dimensions), exactly A[(point*ncomp + component)*ndofs + dof] += factor_component * T[perm][entity][point][dof] "
+    "(rank 0: A[point*ncomp + component] += factor_component), for contiguous, blocked and single-dof maps, on cells and "
+    "on facets with a permuted table. (The `expand_loop` branch for irregular dof maps is unreachable - block maps are "
+    "arithmetic progressions by construction in ir/integral.py - and is not sampled; as written it would raise TypeError.)",
+    min_instances=5,
+)
+def gen_expr(repo, res):
+    import itertools
+
+    w = _World(repo)
+    w.I.obj_classes["ExpressionGenerator"] = EG
+    w.I.overrides["pairwise"] = _PyCall(lambda it: list(itertools.pairwise(list(it))))
+    w.I.overrides["product"] = _PyCall(lambda *its: [tuple(x) for x in itertools.product(*[list(i) for i in its])])
+    m = repo.mod(EG)
+    g = m.func("ExpressionGenerator.generate_block_parts")
+    res.functions.update({g.key, m.func("ExpressionGenerator.get_arg_factors").key,
+                          repo.mod("ffcx.codegeneration.symbols").func("FFCXBackendSymbols.element_table").key})
+    T = w.table
+    npts = NQ
+    cases = [
+        # label, entity type, value shape, argument dims, blockmap, table, restriction
+        ("rank 0, two components", "cell", (2,), [], (), None),
+        ("rank 1, P1 argument, two components", "cell", (2,), [3], ((0, 1, 2),), T("FE0", (1, 1, npts, 3))),
+        ("rank 1, blocked argument component 1", "cell", (1,), [6], ((1, 3, 5),), T("FE1", (1, 1, npts, 3), offset=1, bs=2)),
+        ("rank 1, facet expression with a permuted, entity-dependent table", "facet", (2,), [3], ((0, 1, 2),), T("FE3", (2, 3, npts, 3), permuted=True)),
+        ("rank 1, single dof", "cell", (1,), [4], ((3,),), T("FE4", (1, 1, npts, 1), offset=3)),
+    ]
+    for label, etype, vshape, argdims, blockmap, td in cases:
+        key = f"{g.key}:{label}"
+        res.ob(key)
+        ncomp = _prod(vshape)
+        symbols = Node("FFCXBackendSymbols", element_tensor=w.sym("A"), entity_local_index=w.sym("entity_local_index", "DataType.INT"),
+                       quadrature_permutation=w.sym("quadrature_permutation", "DataType.INT"), quadrature_loop_index=w.sym("iq", "DataType.INT"),
+                       element_tables={})
+        backend = Node("FFCXBackend", symbols=symbols)
+        fnodes, scope = {}, {}
+        fici = []
+        for c in range(ncomp):
+            v = Node("UflExpr", name=f"f{c}", _ufl_is_literal_=False)
+            fnodes[c] = {"expression": v}
+            scope[v] = w.sym(f"f{c}")
+            fici.append((c, c))
+        margs = {0: Node("ModifiedTerminal", restriction=None)}
+        mads = (Node("ModifiedArgumentDataT", ma_index=0, tabledata=td),) if td is not None else ()
+        bd = Node("BlockDataT", ttypes=tuple([td.f["ttype"]] if td is not None else []), factor_indices_comp_indices=fici, all_factors_piecewise=False,
+                  unames=(), restrictions=(), transposed=False, is_uniform=False, ma_data=mads, is_permuted=False)
+        rule_key = ("triangle", w.rule)
+        expr_ir = Node("CommonExpressionIR", integrand={rule_key: {"factorization": Node("ExpressionGraph", nodes=fnodes), "modified_arguments": margs}},
+                       tensor_shape=list(argdims), shape=list(vshape), entity_type=etype, integral_type="expression")
+        gen = Node("ExpressionGenerator", ir=Node("ExpressionIR", expression=expr_ir), backend=backend, scope=scope, symbol_counters=collections.defaultdict(int),
+                   quadrature_rule=rule_key, shared_symbols={}, _ufl_names=set())
+        try:
+            pre, quad = w.I.call_f(g, [gen, blockmap, bd])
+        except Raised as e:
+            res.fail(key, f"generate_block_parts raises ({e.what}) on `{label}`", m.line(g.node))
+            continue
+        total = npts * ncomp * _prod(argdims)
+        extents = {"A": (total,), "entity_local_index": (2,), "quadrature_permutation": (2,)}
+        if td is not None:
+            extents[td.f["name"]] = td.f["values"].f["shape"]
+        iq = w.sym("iq", "DataType.INT")
+        ex = Exec(("A",), concrete=CONCRETE, extents=extents)
+        try:
+            ex.run(list(pre))
+            ex.run(w.I.construct("ForRange", [iq, 0, npts, list(quad)], {}))
+        except ExecError as e:
+            res.fail(key, f"`{label}`: {e}", m.line(g.node))
+            continue
+        want = {}
+        for q in range(npts):
+            for c in range(ncomp):
+                if td is None:
+                    idx = q * ncomp + c
+                    want[("A", (idx,))] = Rat.var(f"A[{idx}]") + Rat.var(f"f{c}")
+                    continue
+                fv = td.f
+                perm = CONCRETE["quadrature_permutation"][(0,)] if fv["is_permuted"] else 0
+                ent = 0 if (fv["is_uniform"] or etype == "cell") else CONCRETE["entity_local_index"][(0,)]
+                for d, dof in enumerate(blockmap[0]):
+                    idx = (q * ncomp + c) * argdims[0] + dof
+                    want[("A", (idx,))] = Rat.var(f"A[{idx}]") + Rat.var(f"f{c}") * Rat.var(f"{fv['name']}[{perm}, {ent}, {q}, {d}]")
+        d = diff(want, ex.result())
+        if d is not None:
+            (arr, idx), va, vb = d
+            res.fail(key, f"`{label}`: generated code leaves {arr}{list(idx)} = {_show(vb)}; expected {_show(va)} "
+                     "(layout A[point][component][argument dof])", m.line(g.node))
